@@ -218,6 +218,7 @@ func (_this *RulesEventReceiver) OnUID(value []byte) {
 }
 
 func (_this *RulesEventReceiver) OnTime(value compact_time.Time) {
+	_this.context.ValidateTime(value)
 	_this.context.NotifyNewObject(true)
 	_this.context.CurrentEntry.Rule.OnKeyableObject(&_this.context, DataTypeTime, value)
 	_this.receiver.OnTime(value)
@@ -259,6 +260,7 @@ func (_this *RulesEventReceiver) OnMedia(mediaType string, value []byte) {
 	if len(mediaType) > 0xffffffff {
 		panic(fmt.Errorf("media type is too long (%v bytes)", len(mediaType)))
 	}
+	_this.context.ValidateMediaType(mediaType)
 	_this.context.NotifyNewObject(true)
 	_this.context.CurrentEntry.Rule.OnArray(&_this.context, events.ArrayTypeMedia, uint64(len(value)), value)
 	_this.receiver.OnMedia(mediaType, value)
@@ -284,6 +286,7 @@ func (_this *RulesEventReceiver) OnArrayBegin(arrayType events.ArrayType) {
 }
 
 func (_this *RulesEventReceiver) OnMediaBegin(mediaType string) {
+	_this.context.ValidateMediaType(mediaType)
 	_this.context.NotifyNewObject(true)
 	_this.context.CurrentEntry.Rule.OnArrayBegin(&_this.context, events.ArrayTypeMedia)
 	_this.receiver.OnMediaBegin(mediaType)
